@@ -54,6 +54,9 @@ pub struct Case {
     /// 0 = file, 1 = inline, 2 = -e (source on stdin)
     pub mode: u8,
     pub out_file: bool,
+    /// the --output file already exists (with longer, unrelated content) before the run
+    #[serde(default)]
+    pub precreate: bool,
 }
 
 pub struct Cli;
@@ -221,6 +224,10 @@ impl Check for Cli {
             args.push(i.text.clone());
         }
         let out_path = format!("{}/out.json", dir);
+        let stale = "{\"stale\": [1.0, 2.0, 3.0, 4.0, 5.0, 6.0, 7.0, 8.0, 9.0], \"left_over_from_an_earlier_run\": true, \"padding\": \"xxxxxxxxxxxxxxxxxxxxxxxxxxxxxxxxxxxxxxxxxxxxxxxxxxxxxxxxxxxxxxxxxxxxxxxxxxxxxxxxxxxxxxxxxxxxxxxx\"}\n";
+        if c.out_file && c.precreate {
+            std::fs::write(&out_path, stale).unwrap();
+        }
         if c.out_file {
             args.push("-o".into());
             args.push(out_path.clone());
@@ -306,7 +313,8 @@ impl Check for Cli {
                 if matches!(json::parse(r.stdout.trim()), Ok(MV::Rec(_))) {
                     fail!(format!("failure-with-outputs-object:{}:{}", kind, mode), "the CLI exits with {} but still prints an outputs object\n{}", r.describe(), describe());
                 }
-                if c.out_file && file_content.is_some() {
+                let untouched = if c.precreate { file_content.as_deref() == Some(stale) } else { file_content.is_none() };
+                if c.out_file && !untouched {
                     fail!(format!("failure-writes-output-file:{}:{}", kind, mode), "the CLI exits with {} but wrote the --output file: {:?}\n{}", r.describe(), file_content, describe());
                 }
                 Ok(())
@@ -420,7 +428,8 @@ fn case(tape: &[u16]) -> Case {
             _ => stmts.push(Stmt::Output(NAMES[t.pick(NAMES.len())].to_string())),
         }
     }
-    Case { stmts, inputs, mode, out_file }
+    let precreate = out_file && t.chance(1, 2);
+    Case { stmts, inputs, mode, out_file, precreate }
 }
 
 pub fn run(ctx: &mut Ctx) {
@@ -428,12 +437,12 @@ pub fn run(ctx: &mut Ctx) {
     let obj = |pairs: Vec<(&str, MV)>| MV::Rec(pairs.into_iter().map(|(k, v)| (k.to_string(), v)).collect());
     let inp = |stdin: bool, v: MV| Input { stdin, text: json::write(&v, 0), valid: Some(v) };
     let fixed = vec![
-        Case { stmts: vec![Stmt::OutputBind("p".into(), Val::Add(Box::new(Val::Hash("a".into())), Box::new(Val::InputsDot("b".into()))))], inputs: vec![inp(true, obj(vec![("a", num(1.0)), ("b", num(2.0))])), inp(false, obj(vec![("b", num(10.0))])), inp(false, obj(vec![("a", num(5.0))]))], mode: 0, out_file: false },
-        Case { stmts: vec![Stmt::OutputBind("p".into(), Val::List(vec![Val::Hash("value_1".into()), Val::Hash("value_2".into()), Val::Hash("value_3".into())]))], inputs: vec![inp(true, num(3.0)), inp(false, MV::Str("x".into())), inp(false, obj(vec![("value_total", num(1.0))])), inp(false, MV::Null)], mode: 1, out_file: false },
-        Case { stmts: vec![Stmt::OutputBind("p".into(), Val::Hash("value_1".into()))], inputs: vec![inp(false, obj(vec![("value_1", MV::Str("a".into()))])), inp(false, num(7.0))], mode: 0, out_file: true },
-        Case { stmts: vec![Stmt::Bind("p".into(), Val::Lit(num(1.0))), Stmt::Output("p".into()), Stmt::Output("q".into())], inputs: vec![], mode: 2, out_file: false },
-        Case { stmts: vec![Stmt::OutputBind("p".into(), Val::Lit(num(1.0))), Stmt::Fail("nope".into(), false)], inputs: vec![], mode: 0, out_file: true },
-        Case { stmts: vec![], inputs: vec![], mode: 1, out_file: false },
+        Case { stmts: vec![Stmt::OutputBind("p".into(), Val::Add(Box::new(Val::Hash("a".into())), Box::new(Val::InputsDot("b".into()))))], inputs: vec![inp(true, obj(vec![("a", num(1.0)), ("b", num(2.0))])), inp(false, obj(vec![("b", num(10.0))])), inp(false, obj(vec![("a", num(5.0))]))], mode: 0, out_file: false, precreate: false },
+        Case { stmts: vec![Stmt::OutputBind("p".into(), Val::List(vec![Val::Hash("value_1".into()), Val::Hash("value_2".into()), Val::Hash("value_3".into())]))], inputs: vec![inp(true, num(3.0)), inp(false, MV::Str("x".into())), inp(false, obj(vec![("value_total", num(1.0))])), inp(false, MV::Null)], mode: 1, out_file: false, precreate: false },
+        Case { stmts: vec![Stmt::OutputBind("p".into(), Val::Hash("value_1".into()))], inputs: vec![inp(false, obj(vec![("value_1", MV::Str("a".into()))])), inp(false, num(7.0))], mode: 0, out_file: true, precreate: true },
+        Case { stmts: vec![Stmt::Bind("p".into(), Val::Lit(num(1.0))), Stmt::Output("p".into()), Stmt::Output("q".into())], inputs: vec![], mode: 2, out_file: false, precreate: false },
+        Case { stmts: vec![Stmt::OutputBind("p".into(), Val::Lit(num(1.0))), Stmt::Fail("nope".into(), false)], inputs: vec![], mode: 0, out_file: true, precreate: true },
+        Case { stmts: vec![], inputs: vec![], mode: 1, out_file: false, precreate: false },
     ];
     ctx.run_enum(&Cli, fixed.into_iter().filter(|c| !c.stmts.is_empty()), false);
     ctx.run_random(&Cli, prop::collection::vec(any::<u16>(), 0..160).prop_map(|t| case(&t)), ctx.tier.pick(4_000, 80_000));
